@@ -3,6 +3,7 @@ package symex
 import (
 	"fmt"
 	"go/types"
+	"strings"
 
 	"golang.org/x/tools/go/ssa"
 
@@ -33,6 +34,9 @@ func (e *Engine) atLoopHeader(st *State, li *loopInfo) (bool, []*State) {
 			}
 			e.addOblig(st, "inv-preserve", clauseLabel(inv), propsOr(inv.Props, "SAFETY"), e.evalBool(env, inv.Expr), pos)
 		}
+		if top && len(act.frameHeaps) > 0 && !e.cur.modAll {
+			e.addOblig(st, "inv-preserve", "frame", []string{"FRAME"}, e.frameFormula(st, act.frameHeaps), pos)
+		}
 		if lc.Variant != nil && act.variant != nil {
 			v := e.evalInt(env, lc.Variant)
 			e.addOblig(st, "variant", "decreases", []string{"TERM"}, smt.And(smt.Le(smt.IntC(0), act.variant), smt.Lt(v, act.variant)), pos)
@@ -46,6 +50,26 @@ func (e *Engine) atLoopHeader(st *State, li *loopInfo) (bool, []*State) {
 		panic(unsupported(fmt.Sprintf("loop %d of %s has no contract", li.ordinal, fr.fn.Name())))
 	}
 	// entry edge
+	if li.header.Comment == "rangeindex.loop" {
+		// $n: ranged length, $s: ranged slice (loop-invariant registers)
+		if iff, ok := li.header.Instrs[len(li.header.Instrs)-1].(*ssa.If); ok {
+			if bo, ok := iff.Cond.(*ssa.BinOp); ok {
+				if v, ok := fr.regs[bo.Y]; ok {
+					fr.lets["$n"] = v
+				} else if c, ok := bo.Y.(*ssa.Const); ok {
+					fr.lets["$n"] = e.constValue(c)
+				}
+			}
+			for _, in := range li.header.Succs[0].Instrs {
+				if ia, ok := in.(*ssa.IndexAddr); ok {
+					if v, ok := fr.regs[ia.X]; ok {
+						fr.lets["$s"] = v
+						break
+					}
+				}
+			}
+		}
+	}
 	env := e.funcEnv(st)
 	for _, l := range lc.Lets {
 		fr.lets[l.Name] = e.eval(env, l.Expr)
@@ -62,28 +86,57 @@ func (e *Engine) atLoopHeader(st *State, li *loopInfo) (bool, []*State) {
 	st.labels = saved
 	st.label(fmt.Sprintf("loop%d", li.ordinal))
 	// havoc
+	preHeaps := make(map[string]*smt.Term, len(st.heaps))
+	for k, v := range st.heaps {
+		preHeaps[k] = v
+	}
+	preState := st.clone()
 	e.havocLoop(st, li)
+	na := smt.Fresh("alloc", smt.Int)
+	st.assume(smt.Le(st.alloc, na))
+	st.alloc = na
+	var frameHeaps []string
+	if top && st.epoch == 0 && !e.cur.modAll {
+		for _, name := range smt.SortedKeys(st.heaps) {
+			if st.heaps[name] != preHeaps[name] {
+				frameHeaps = append(frameHeaps, name)
+			}
+		}
+		if len(frameHeaps) > 0 {
+			// the frame so far must hold on arrival ...
+			for _, name := range frameHeaps {
+				preState.heap(name, st.heaps[name].S)
+			}
+			preState.labels = append(append([]string(nil), saved...), fmt.Sprintf("loop%d:init", li.ordinal))
+			e.addOblig(preState, "inv-init", "frame", []string{"FRAME"}, e.frameFormula(preState, frameHeaps), pos)
+			// ... and is assumed for the havoced heaps
+			st.assume(e.frameFormula(st, frameHeaps))
+		}
+	}
 	env = e.funcEnv(st)
 	for _, h := range lc.Havoc {
 		e.havocTarget(st, env, h, false)
 	}
 	env = e.funcEnv(st)
+	var assumed []*smt.Term
 	for _, inv := range lc.Invariants {
-		st.assume(e.evalBool(env, inv.Expr))
+		assumed = append(assumed, e.evalBool(env, inv.Expr))
 	}
-	act := &loopAct{}
+	act := &loopAct{frameHeaps: frameHeaps}
 	if lc.Variant != nil {
 		act.variant = e.evalInt(env, lc.Variant)
 	}
 	fr.active[li.header] = act
 	for _, u := range lc.Uses {
-		st.assume(e.evalBool(env, u))
+		ut := e.evalBool(env, u)
+		assumed = append(assumed, ut)
+		act.uses = append(act.uses, ut)
 	}
-	e.propagateEqualities(st)
 	if lc.Split != nil {
 		var outs []*State
 		var covered []*smt.Term
 		sv := e.eval(env, lc.Split)
+		svi, isInt := sv.(IntV)
 		for _, valN := range lc.SplitVals {
 			s2 := st.clone()
 			env2 := e.funcEnv(s2)
@@ -91,17 +144,49 @@ func (e *Engine) atLoopHeader(st *State, li *loopInfo) (bool, []*State) {
 			c := e.valueEq(sv, v, false)
 			covered = append(covered, c)
 			s2.assume(c)
-			s2.label(fmt.Sprintf("%s=%s", lc.Split, valN))
+			if isInt {
+				sub := map[*smt.Term]*smt.Term{svi.T: v.(IntV).T}
+				for _, a := range assumed {
+					s2.assume(smt.Subst(a, sub))
+				}
+				na := *act
+				na.uses = nil
+				for _, u := range act.uses {
+					na.uses = append(na.uses, smt.Subst(u, sub))
+				}
+				s2.fr.active[li.header] = &na
+			} else {
+				for _, a := range assumed {
+					s2.assume(a)
+				}
+			}
+			s2.label(fmt.Sprintf("%s=%s", shortSplit(lc.Split.String()), valN))
 			e.propagateEqualities(s2)
-			outs = append(outs, s2)
+			if !s2.dead {
+				outs = append(outs, s2)
+			}
 		}
 		// completeness of the split
 		rest := st.clone()
+		for _, a := range assumed {
+			rest.assume(a)
+		}
 		rest.label("split-complete")
 		e.addOblig(rest, "split", "complete", []string{"SAFETY"}, smt.Or(covered...), pos)
 		return true, outs
 	}
+	for _, a := range assumed {
+		st.assume(a)
+	}
+	e.propagateEqualities(st)
 	return true, []*State{st}
+}
+
+func shortSplit(s string) string {
+	if i := strings.LastIndex(s, "."); i >= 0 {
+		return s[i+1:]
+	}
+	return s
 }
 
 // wantClause reports whether a clause tagged with props is to be proved in
@@ -271,6 +356,12 @@ func (e *Engine) classifyStore(addr ssa.Value, cells map[*ssa.Alloc]bool, field 
 			switch t := x.X.Type().Underlying().(type) {
 			case *types.Slice:
 				elems[typeKey(t.Elem())] = t.Elem()
+			case *types.Pointer:
+				if at, ok := t.Elem().Underlying().(*types.Array); ok {
+					elems[typeKey(at.Elem())] = at.Elem()
+				} else {
+					panic(unsupported("store through array pointer"))
+				}
 			default:
 				panic(unsupported("store through array pointer"))
 			}
@@ -541,15 +632,25 @@ func isHavocVar(t *smt.Term) bool {
 }
 
 func occurs(v, t *smt.Term) bool {
+	return occursM(v, t, map[*smt.Term]bool{})
+}
+
+func occursM(v, t *smt.Term, memo map[*smt.Term]bool) bool {
 	if v == t {
 		return true
 	}
+	if r, ok := memo[t]; ok {
+		return r
+	}
+	r := false
 	for _, a := range t.Args {
-		if occurs(v, a) {
-			return true
+		if occursM(v, a, memo) {
+			r = true
+			break
 		}
 	}
-	return false
+	memo[t] = r
+	return r
 }
 
 func (e *Engine) substState(st *State, sub map[*smt.Term]*smt.Term) {
